@@ -218,7 +218,7 @@ impl<'b, C> CborLen<C> for Token<'b> {
             Token::F16(_)      => 3,
             Token::F32(val)    => val.cbor_len(ctx),
             Token::F64(val)    => val.cbor_len(ctx),
-            Token::Bytes(val)  => val.cbor_len(ctx),
+            Token::Bytes(val)  => { let n = val.len(); n.cbor_len(ctx) + n }
             Token::String(val) => val.cbor_len(ctx),
             Token::Array(val)  => val.cbor_len(ctx),
             Token::Map(val)    => val.cbor_len(ctx),
